@@ -115,3 +115,12 @@ META["C11"] = {
     "note": "Only panics and hangs are judged; errors are fine. A worker death is attributed by heartbeat and confirmed in isolation.",
     "technique": "runtime monitoring: panic hook + CPU watchdog over corrupted-input x mutation-history workloads",
 }
+
+META["C16"] = {
+    "text": "Exploration: (A) differential strict-vs-permissive on everything strict accepts from the hostile-input generator; (B) a "
+            "byte-level injector of each documented deviation into valid files of many layouts, singly and combined, with the "
+            "undamaged file's dump as oracle.",
+    "design_ref": "DESIGN.md section 2, C16",
+    "note": "Trusts refparse's field offsets for the injector and the synth/refparse self-check for the bases.",
+    "technique": "runtime monitoring: differential open-mode oracle + documented-deviation injector",
+}
